@@ -50,7 +50,14 @@ def bind_variant(g: Graph, variant: int):
         h.bind("s", SUB)
     elif variant == 2:
         h.bind("ex", URIRef("http://ex.tes"))       # a namespace that leaves "t/p0" as local part
+    elif variant == 4:
+        h.bind("ex", URIRef("http://other.test/"))  # the data document uses the prefix of the shapes document for another namespace
     return h
+
+
+def rdflib_xsd_integer():
+    from rdflib.namespace import XSD
+    return XSD.integer
 
 
 def run(ctx, out):
@@ -91,6 +98,22 @@ def run(ctx, out):
     wn = pathgen.encode(wsg, ("star", ("star", ("p", PREDS[0]))))
     wsg.add((EX.WS, RDF.type, SH.PropertyShape)); wsg.add((EX.WS, SH.path, wn)); wsg.add((EX.WS, SH.targetObjectsOf, PREDS[0])); wsg.add((EX.WS, SH.maxLength, Literal(2)))
     cases.insert(0, ("corpus:falsy-literal", wsg, graph_from_triples([(BNode("d1"), PREDS[0], Literal(False)), (NODES[1], PREDS[0], Literal("fast"))])))
+    # literal focus nodes (sh:targetObjectsOf / sh:targetNode) under paths that admit the zero-length path: the literal is its own value node
+    for k in range(12 if quick else 60):
+        lsg = Graph()
+        a = [("opt", ("p", PREDS[0])), ("star", ("p", PREDS[0])), ("opt", ("inv", ("p", PREDS[0]))), ("seq", [("opt", ("p", PREDS[0])), ("opt", ("p", PREDS[1]))]),
+             ("alt", [("opt", ("p", PREDS[0])), ("p", PREDS[1])]), ("star", ("inv", ("p", PREDS[1])))][k % 6]
+        ps = EX["LF%d" % k]
+        lsg.add((ps, RDF.type, SH.PropertyShape)); lsg.add((ps, SH.path, pathgen.encode(lsg, a)))
+        if k % 2:
+            lsg.add((ps, SH.targetObjectsOf, PREDS[1]))
+        else:
+            for l in (Literal("abc"), Literal(7), Literal("x", lang="en")):
+                lsg.add((ps, SH.targetNode, l))
+        lsg.add((ps, [SH.datatype, SH.minCount, SH.maxLength, SH.nodeKind][k // 2 % 4], [rdflib_xsd_integer(), Literal(2), Literal(2), SH.IRI][k // 2 % 4]))
+        ldata = [(NODES[0], PREDS[1], Literal("abc")), (NODES[0], PREDS[1], Literal(7)), (NODES[1], PREDS[1], Literal("x", lang="en")),
+                 (NODES[1], PREDS[1], NODES[2]), (NODES[2], PREDS[0], NODES[3]), (NODES[2], PREDS[0], Literal(1.5))]
+        cases.append(("literal-focus", lsg, graph_from_triples(ldata)))
     # several values per target kind, different counts per kind (the VALUES clause of the sparql_mode target query)
     from common import CLASSES
     for _ in range(30 if quick else 120):
@@ -106,7 +129,7 @@ def run(ctx, out):
             gen.g.add((s, SH.targetObjectsOf, pp))
         cases.append(("targets", gen.g, graph_from_triples(data)))
     out.rule = ("printer: exhaustive nesting<=1 + random nesting 2..4 paths over IRIs with plain and non-plain local names x 4 prefix maps; "
-                "metamorphic: Core shapes (45% complex paths), compositions, sparse value-node cases x 4 namespace-binding variants of the "
+                "metamorphic: Core shapes (45% complex paths), compositions, sparse value-node cases x 5 namespace-binding variants of the "
                 "data graph, sparql_mode off/on; non-trivial = distinct metamorphic case with >=1 result")
     lines = plines + [vcase.model_line("c%d" % i, sg, dg) for i, (_l, sg, dg) in enumerate(cases)]
     replies = ctx.driver.ask(lines)
@@ -159,8 +182,10 @@ def run(ctx, out):
             out.b_fail.append({"signature": "C07:data-graph-written-in-sparql-mode", "case": {"options": {k: str(v)[:40] for k, v in kw.items()}, "outcome": outcome,
                                "added": sorted(str(t) for t in frozenset(wdg) - before)[:5]}})
     for i, (label, sg, dg0) in enumerate(cases):
-        variant = i % 4
+        variant = i % 5
         dg = bind_variant(dg0, variant)
+        if variant in (2, 4):
+            sg.bind("ex", EX, override=True)        # shapes and data come from documents that bind one prefix differently
         before = frozenset(dg)
         out.evaluations += 2
         out.traces += 1
